@@ -37,16 +37,18 @@ RULE = (
 ASSUMPTIONS = [
     "beta coefficients of the references from the literature table of c20_coefficients; the comparison with "
     "singlet.eko_iterate / non_singlet.dispatcher uses the repository's QCD kernels as second implementation",
-    "kernel tolerance 1e-11 x cond(V) x steps relative (the repository exponentiates through numpy eig; V = eigenvectors of "
+    "kernel tolerance 1e-12 x cond(V) x steps relative (the repository exponentiates through numpy eig; V = eigenvectors of "
     "the first step generator, cases with cond(V) > 1e4 are outside the domain of that closed form and discarded, "
-    "counted); non-singlet 1e-9 relative (closed-form evolution integrals with cubic roots at N3LO)",
+    "counted); non-singlet 1e-10 relative (closed-form evolution integrals with cubic roots at N3LO)",
     "Sigma_Delta / V_Delta vs the exact NS kernel: |diff| <= 0.25 h^2 c max|gamma a/beta| |E| with h = c/steps <= 0.32 "
     "(constant of C12: 3 x the largest measured value), geometric lists only",
-    "end to end: quad tolerance tightened to 1e-9 from the harness (tight_quad of C50); noise floor 1e-8 |E| (measured "
-    "< 1e-9 between QED solves whose alpha_em differ by 1e-9)",
-    "end-to-end constants: c1 = 3 ln(mu_hi^2/mu_lo^2) (alpha_em, not a_em; measured <= 0.12 x that), c2 = 20 "
-    "ln(mu_hi^2/mu_lo^2)^3 alpha_s(mu_lo)^2... relative to max|E_QCD| (calibrated 10 x above the largest measured value); "
-    "linearity window 50..200 for a nominal ratio of 100",
+    "end to end: quad tolerance tightened to 1e-9 from the harness (tight_quad of C50); noise floor 1e-9 |E| (measured: "
+    "the ratio of the two alpha_em differences reproduces the nominal 101.01 to 4 digits, i.e. noise < 1e-11)",
+    "end-to-end constants, relative to max|E_QCD|, with dt = ln(mu_hi^2/mu_lo^2): alpha_em term <= c1 alpha_em with c1 = "
+    "dt (measured 0.09-0.13 dt); photon row/column <= 6 dt alpha_em (measured <= 1.0 dt); distance to QCD at N "
+    "iterations <= 60 c^3 / N^2 with c = beta0 a_max dt the LO estimate of ln(a_hi/a_lo) (measured 3-8 c^3 / N^2); "
+    "shrink factor per doubling >= 3 (measured 3.9-4.0) down to the floor c1 1e-8 + 1e-9 + the reference's own "
+    "discretisation error; linearity window: measured ratio within a factor 2 of the nominal 101",
     "interpreted mode (NUMBA_DISABLE_JIT=1)",
 ]
 LEVEL_TEXT = (
@@ -58,12 +60,12 @@ LEVEL_TEXT = (
 K_TOL = 1e-12
 NS_TOL = 1e-10
 COND_MAX = 1e4
-E_NOISE = 1e-8
+E_NOISE = 1e-9
 
 
 def budget(tier):
     if tier == "quick":
-        return dict(max_examples=4800, shards=16, wall_s=80, shrink_s=40)
+        return dict(max_examples=16000, shards=16, wall_s=80, shrink_s=40)
     return dict(max_examples=48000, shards=16, wall_s=850, shrink_s=150)
 
 
@@ -129,7 +131,7 @@ def strategy(tier):
     # cases per shard (measured for C51); a content hash changes with every mutation and gives a flat 1/n_sel rate.
     from vf.core import jhash
 
-    n_sel = 1200 if tier == "quick" else 800
+    n_sel = 4000 if tier == "quick" else 1600
 
     @st.composite
     def both(draw):
@@ -346,7 +348,8 @@ def check_e2e(case):
     # (1) the alpha_em term
     lo = by_aem[aems[-1]]
     d_aem = [dist(by_aem[a], lo) for a in aems[:-1]]
-    c1 = 3.0 * dt
+    c1 = 1.0 * dt
+    c_ph = 6.0 * dt
     for a, d in zip(aems[:-1], d_aem):
         if not d <= c1 * a + E_NOISE:
             res.fail(f"{ID}/E/aem-term-too-large/{where}", f"|E_QED(aem={a}) - E_QED(aem={aems[-1]})| / |E| = {d:.3e} > c1 aem = {c1 * a:.3e} on the parton channels")
@@ -361,8 +364,11 @@ def check_e2e(case):
     # (2) the discretisation term
     D = [dist(by_n[N], qcd) for N in iters]
     floor = c1 * aems[-1] + E_NOISE + D[0] * (iters[0] / (8.0 * max(iters))) ** 2 * 3
-    a_lo = case["alphas"] / (4 * math.pi)
-    c2 = 20.0 * dt**3
+    # size of the coupling span c = ln(a_hi/a_lo) ~ beta0 a dt (LO estimate from the card, no repository code)
+    a_ref = case["alphas"] / (4 * math.pi)
+    b0 = 11.0 - 2.0 / 3.0 * case["nf"]
+    a_max = a_ref if case["up"] else a_ref / (1.0 - b0 * a_ref * dt)
+    c2 = 60.0 * (b0 * a_max * dt) ** 3
     shr = []
     for i in range(len(iters) - 1):
         if D[i] > 30 * floor:
@@ -388,9 +394,9 @@ def check_e2e(case):
         op = by_aem[a]
         ph.append(max(float(np.max(np.abs(op[0, :, 0, :] - eye))), float(np.max(np.abs(op[0, :, 1:, :]))), float(np.max(np.abs(op[1:, :, 0, :])))))
     for a, p in zip(aems, ph):
-        if not p <= c1 * a * max(norm, 1.0) + E_NOISE:
-            res.fail(f"{ID}/E/photon-not-trivial/{where}", f"photon row/column deviates from the identity by {p:.3e} at alpha_em={a} (> {c1 * a * max(norm, 1.0):.3e})")
-    LAST.update(d_aem=d_aem, D=D, ph=ph, norm=norm, dt=dt, c1=c1, c2=c2, a_lo=a_lo, floor=floor)
+        if not p <= c_ph * a * max(norm, 1.0) + E_NOISE:
+            res.fail(f"{ID}/E/photon-not-trivial/{where}", f"photon row/column deviates from the identity by {p:.3e} at alpha_em={a} (> {c_ph * a * max(norm, 1.0):.3e})")
+    LAST.update(d_aem=d_aem, D=D, ph=ph, norm=norm, dt=dt, c1=c1, c2=c2, c_ph=c_ph, floor=floor)
     res.nontrivial = bool(n >= 2)
     return res
 
